@@ -87,6 +87,33 @@ func sliceFamily(seed ssa.Value) map[ssa.Value]bool {
 	return fam
 }
 
+// promiseFamily: sliceFamily closed under "all elements appended to another collection" (append(other, v...)).
+func promiseFamily(seed ssa.Value) map[ssa.Value]bool {
+	fam := sliceFamily(seed)
+	for changed := true; changed; {
+		changed = false
+		for v := range fam {
+			refs := v.Referrers()
+			if refs == nil {
+				continue
+			}
+			for _, r := range *refs {
+				app, ok := r.(*ssa.Call)
+				if !ok || fam[app] {
+					continue
+				}
+				if bi, ok := app.Common().Value.(*ssa.Builtin); ok && bi.Name() == "append" && len(app.Common().Args) == 2 && app.Common().Args[1] == v {
+					for k := range sliceFamily(app) {
+						fam[k] = true
+					}
+					changed = true
+				}
+			}
+		}
+	}
+	return fam
+}
+
 type awaitAnalysis struct {
 	memo map[string]bool
 }
@@ -355,16 +382,23 @@ var ruleA2 = &Rule{
 								continue
 							}
 							for _, sr := range *sl.Referrers() {
+								var seed ssa.Value
 								if app, ok := sr.(*ssa.Call); ok {
 									if bi, ok := app.Common().Value.(*ssa.Builtin); ok && bi.Name() == "append" {
-										f := sliceFamily(app)
-										if fam == nil {
-											fam = f
-											collected = true
-										} else if fam[app] {
-											collected = true
-										}
+										seed = app
 									}
+								}
+								if _, ok := sr.(*ssa.Return); ok {
+									seed = sl // a slice literal of the promises handed back to the caller
+								}
+								if seed == nil {
+									continue
+								}
+								if fam == nil {
+									fam = promiseFamily(seed)
+									collected = true
+								} else if fam[seed] {
+									collected = true
 								}
 							}
 						}
@@ -389,16 +423,41 @@ var ruleA2 = &Rule{
 					}
 				}
 			}
-			// (3) returns
+			// (3) returns — of the function itself, or, when it hands the collection back to its caller, of every caller
 			if fam == nil {
 				fam = map[ssa.Value]bool{}
 			}
-			ok, why, pos := a.okReturns(fn, fam, 0)
-			if pos == token.NoPos {
-				pos = fn.Pos()
+			producer := false
+			for _, r := range returnsOf(fn) {
+				if len(r.Results) > 0 && fam[r.Results[0]] {
+					producer = true
+				}
 			}
-			add("success is returned only after every promise was awaited", ok, pos, why+": rows may never be inserted although the request is acknowledged")
-			add("waits for every promise", len(a.awaitExits(fn, fam)) > 0 || ok, fn.Pos(), "no loop over the collected promises that calls Get and returns the error")
+			judge := func(driver *ssa.Function, dfam map[ssa.Value]bool) {
+				name = ssaName(driver)
+				ok, why, pos := a.okReturns(driver, dfam, 0)
+				if pos == token.NoPos {
+					pos = driver.Pos()
+				}
+				add("success is returned only after every promise was awaited", ok, pos, why+": rows may never be inserted although the request is acknowledged")
+				add("waits for every promise", len(a.awaitExits(driver, dfam)) > 0 || ok, driver.Pos(), "no loop over the collected promises that calls Get and returns the error")
+			}
+			if !producer {
+				judge(fn, fam)
+				continue
+			}
+			sites := callSitesOf(c, fn)
+			if len(sites) == 0 {
+				add("the collected promises are awaited by a caller", false, fn.Pos(), "the function returns the promises but nothing calls it statically")
+			}
+			for _, site := range sites {
+				v, ok := site.(ssa.Value)
+				if !ok {
+					add("the collected promises are awaited by a caller", false, site.Pos(), "the promises are produced by a call whose result is dropped (go / defer)")
+					continue
+				}
+				judge(site.Parent(), promiseFamily(v))
+			}
 		}
 		if !found {
 			obls = append(obls, Obl{Key: "writer/controller.doPush callers", Pos: "-", Status: Undecided, Msg: fmt.Sprintf("no live function of writer/controller calls doPush")})
